@@ -1621,6 +1621,27 @@ impl Analyzable for Program {
 
         let assets = self.assets.analyze(self.scope.clone());
 
+        // the scope was given the definitions as they were before their analysis: a tx has to
+        // resolve a policy or asset name to the analyzed definition, which is what lowering follows
+        // (e.g. a policy whose hash is an env var)
+        {
+            let scope_rc = self.scope.as_mut().unwrap();
+
+            if Rc::get_mut(scope_rc).is_none() {
+                *scope_rc = Rc::new(Scope::new(Some(scope_rc.clone())));
+            }
+
+            let scope = Rc::get_mut(scope_rc).expect("scope is unique at this point");
+
+            for policy in self.policies.iter() {
+                scope.track_policy_def(policy);
+            }
+
+            for asset in self.assets.iter() {
+                scope.track_asset_def(asset);
+            }
+        }
+
         let mut types = self.types.clone();
         let mut aliases = self.aliases.clone();
 
